@@ -101,6 +101,7 @@ def run(ctx) -> None:
     check_pair(ctx)
     check_bounds(ctx)
     check_members(ctx)
+    ctx.guard(check_objective_before_removal, ctx)
     check_populate(ctx)
     check_clone(ctx)
 
@@ -679,6 +680,71 @@ def check_bounds(ctx) -> None:
 
 
 # ---------------------------------------------------------------------------------------- members
+def check_objective_before_removal(ctx) -> None:
+    """Model.remove_reactions: on every path on which the variables of a reaction with a non-zero objective
+    coefficient are taken out of the solver, the reaction has been taken out of the objective before - with or without
+    a context (the solver interface keeps a removed variable that is still in the objective expression and brings it
+    back, without bounds or stoichiometry, the next time the objective is rebuilt)."""
+    fn = ctx.prog.func("cobra.core.model", "Model.remove_reactions")
+    g = ctx.flow.cfg(fn)
+    removes = []
+    for n in walk_local(fn.node):
+        if isinstance(n, ast.Call) and isinstance(n.func, ast.Attribute) and n.func.attr in ("remove_cons_vars", "remove") and n.args:
+            tags = set()
+            for x in ast.walk(n.args[0]):
+                tags |= tag_of(ctx, fn, x) if isinstance(x, (ast.Name, ast.Attribute)) else set()
+            if {"FWD", "REV"} <= tags:
+                removes.append(n)
+    zero = []
+    for n in walk_local(fn.node):
+        if isinstance(n, ast.Call) and isinstance(n.func, ast.Attribute) and n.func.attr == "set_linear_coefficients" and "objective" in norm(n.func.value) and n.args and isinstance(n.args[0], ast.Dict):
+            if all(isinstance(v, ast.Constant) and v.value == 0 for v in n.args[0].values) and not any(isinstance(a, (ast.FunctionDef, ast.Lambda)) for a in ancestors(n) if a is not fn.node):
+                zero.append(n)
+    if not removes:
+        ctx.note("C01.members: remove_reactions removes the variable pair in no recognised way; objective-before-removal not read")
+        return
+    if not zero:
+        ctx.bad("C01.members", fn, enclosing_stmt(removes[0]), "the variables of a removed reaction are taken out of the solver while the reaction may still be in the objective: the solver interface keeps such variables in its objective expression and brings them back (free, without stoichiometry) when the objective is next rebuilt")
+        return
+    znodes = set()
+    guards = {}
+    for z in zero:
+        znodes |= {x for x in g.node_containing(z) if x.kind != "with_exit"}
+        for a in ancestors(z):
+            if a is fn.node:
+                break
+            if isinstance(a, ast.If) and any(z is x or z in ast.walk(x) for x in a.body):
+                names = {x.id for x in ast.walk(a.test) if isinstance(x, ast.Name)}
+                # a test on the coefficient is the legitimate guard (nothing to take out when it is zero)
+                if any("coef" in nm.lower() or "objective" in nm.lower() for nm in names) or "objective_coefficient" in norm(a.test):
+                    guards[norm(a.test)] = True
+
+    def edge_ok(a, b, l):
+        if l == "exc":
+            return False
+        if a.kind == "test" and a.ast is not None and l in ("true", "false"):
+            t = norm(a.ast)
+            if t in guards:
+                return (l == "true") == guards[t]
+            if t in ("context", "context is not None"):
+                return l == "false"  # the path without a context
+            if t in ("not context", "context is None"):
+                return l == "true"
+        return True
+
+    bad = None
+    for r in removes:
+        rn = [x for x in g.node_containing(r) if x.kind != "with_exit"]
+        w = g.reaches_without(rn, lambda n_: n_ in znodes, edge_ok=edge_ok)
+        if w is not None:
+            bad = (r, w)
+            break
+    if bad:
+        ctx.bad("C01.members", fn, enclosing_stmt(bad[0]), "outside a context the variables of an objective reaction are removed without the reaction having been taken out of the objective first: the solver keeps the removed variables in the objective expression and re-creates them (free, without stoichiometry) when the objective is next rebuilt - the optimum then exceeds the model's", path=describe_path(bad[1]))
+    else:
+        ctx.ok("C01.members", fn, enclosing_stmt(zero[0]), "an objective reaction is taken out of the objective before its variables are removed, with and without a context")
+
+
 def check_populate(ctx) -> None:
     """_populate_solver is the function that (re)creates the solver side of reactions - also as the undo of a removal,
     where the variables are re-added first and therefore already exist. Evaluated by the analyser's interpreter on
